@@ -31,9 +31,11 @@ def generate(rng, tier, shard, nshards):
         ft = feat(LG) + ("+multibyte" if any(len(c.encode()) > 1 for c in cs) else "")
         rec = rng.choice(["left", "right"])
         of = i % 2 == 1
-        yield rops.event("lark", {"LG": LG, "cs": cs, "L": 3, "recursion": rec, "other_first": of}, site=f"char_cfg[{rec}]",
+        oc = CHARSETS[rng.randrange(len(CHARSETS))] if i % 3 == 0 else None
+        yield rops.event("lark", {"LG": LG, "cs": cs, "L": 3, "recursion": rec, "other_first": of, "other_charset": oc}, site=f"char_cfg[{rec}]",
                          feat=ft + ("+same-object" if of else ""), timeout=120)
-        yield rops.event("larkbytes", {"LG": LG, "cs": cs, "L": 3 if tier == "quick" else 4, "other_first": not of}, site="byte_cfg",
+        yield rops.event("larkbytes", {"LG": LG, "cs": cs, "L": 3 if tier == "quick" else 4, "other_first": not of,
+                                       "other_charset": oc}, site="byte_cfg",
                          feat=ft + ("+same-object" if not of else ""), timeout=240)
         if i % 2 == 0:
             texts = [list(p) for k in range(3) for p in itertools.product(cs, repeat=k)]
